@@ -91,6 +91,9 @@ def check_equality(x, partners, stats, case, what):
                 hx, hy = hash(x), hash(y)
             except TypeError:
                 continue
+            except Exception as e:
+                stats.fail('C14/hash-raises/%s/%s' % (what, type(e).__name__), c, 'hash of %s or %s raised %s: %s' % (descr(x), descr(y), type(e).__name__, e))
+                continue
             if hx != hy:
                 stats.fail('C14/hash-inconsistent/%s-vs-%s' % (what, label), c, '%s == %s but hashes differ' % (descr(x), descr(y)))
 
@@ -103,8 +106,8 @@ def check_hash(x, px, stats, case, what):
         return
     try:
         hash(x)
-    except TypeError as e:
-        stats.fail('C14/unhashable/%s' % what, case, 'hash(%s) raised %s although its plain counterpart is hashable' % (descr(x), e))
+    except Exception as e:
+        stats.fail('C14/unhashable/%s' % what, case, 'hash(%s) raised %s: %s although its plain counterpart is hashable' % (descr(x), type(e).__name__, e))
 
 
 def variants_param(p):
